@@ -13,6 +13,9 @@ from typing import Dict, List, Optional, Tuple
 
 from . import tables as T
 from .kinds import (
+    KW_NAMES,
+    Kw,
+    kw_of,
     BOOL,
     EID,
     EMPTY,
@@ -527,7 +530,12 @@ class Interp:
             base = self.ev(target.value, env, fr)
             idx = self.ev_index(target.slice, env, fr)
             self._check_key(fr, target, base, idx, store=True)
-            if isinstance(base, Dct):
+            if isinstance(target.value, ast.Name) and isinstance(target.slice, ast.Constant) and target.slice.value in KW_NAMES and (isinstance(base, Kw) or (isinstance(base, Dct) and base.key == EMPTY and not base.tag)):
+                # kwargs["order"] = order on a local dict of keyword arguments
+                d = dict(base.fields) if isinstance(base, Kw) else {}
+                d[target.slice.value] = k
+                env[target.value.id] = kw_of(d)
+            elif isinstance(base, Dct):
                 if base.tag and not isinstance(base.val, _Top):
                     self.site(fr, "K-VAL", target, base.tag, fits(k, base.val), norm(target) + " = " + (norm(value_node) if value_node is not None else "<value>"))
                 elif not base.tag and isinstance(target.value, ast.Name):
@@ -629,6 +637,9 @@ class Interp:
     def ex_Dict(self, node, env, fr):
         if not node.keys:
             return Dct(EMPTY, EMPTY)
+        if all(isinstance(k, ast.Constant) and k.value in KW_NAMES for k in node.keys):
+            # a dict of keyword arguments (`{"order": order}`), to be handed on with **
+            return kw_of({k.value: self.ev(v, env, fr) for k, v in zip(node.keys, node.values)})
         ks, vs = [], []
         for k, v in zip(node.keys, node.values):
             if k is None:
@@ -953,7 +964,14 @@ class Interp:
         for kw in node.keywords:
             k = self.ev(kw.value, env, fr)
             if kw.arg is None:
-                star_kw = True
+                sk = strip_none(k)
+                if isinstance(sk, Kw) and not isinstance(star_kw, bool) or (isinstance(sk, Kw) and star_kw is False):
+                    star_kw = (star_kw or []) + [sk]
+                elif isinstance(sk, Dct) and sk.key == EMPTY and not sk.tag and star_kw is False:
+                    star_kw = []  # `**{}`: nothing is passed
+                    star_kw = [kw_of({})]
+                else:
+                    star_kw = True
             else:
                 kwargs[kw.arg] = k
         return self.call(f, node, args, kwargs, star_kw, env, fr)
@@ -1028,7 +1046,17 @@ class Interp:
                 bound[name] = k
             elif a.kwarg is None:
                 problem = problem or f"unexpected keyword '{name}' for {fi.short}{_sig(fi)}"
-        if not has_star and not star_kw:
+        if isinstance(star_kw, list):
+            # keyword dicts with known fields: each field is passed like a keyword (a field that may be absent carries NONE)
+            for kwk in star_kw:
+                for name, k in kwk.fields:
+                    if name in bound:
+                        problem = problem or f"multiple values for parameter '{name}' of {fi.short}"
+                    elif name in pos or name in kwonly:
+                        bound[name] = k
+                    elif a.kwarg is None:
+                        problem = problem or f"unexpected keyword '{name}' for {fi.short}{_sig(fi)}"
+        if not has_star and (not star_kw or isinstance(star_kw, list)):
             for name in pos + kwonly:
                 if name not in bound and name not in defaults:
                     problem = problem or f"missing required argument '{name}' of {fi.short}{_sig(fi)}"
@@ -1390,6 +1418,7 @@ class Interp:
                 return True
             return False if all(v is False for v in vals) else None
         if isinstance(test, ast.Compare) and len(test.ops) == 1:
+            test = _const_right(test)
             op = test.ops[0]
             a = self._peek(test.left, env, fr)
             b = self._peek(test.comparators[0], env, fr)
@@ -1519,6 +1548,7 @@ class Interp:
                     pass
             return env
         if isinstance(test, ast.Compare) and len(test.ops) == 1:
+            test = _const_right(test)
             op = test.ops[0]
             left, right = test.left, test.comparators[0]
             if isinstance(op, (ast.Is, ast.IsNot)) and isinstance(right, ast.Constant) and right.value is None and isinstance(left, ast.Name):
@@ -1555,6 +1585,13 @@ class Interp:
 
 
 # ====================================================================== helpers
+def _const_right(test: ast.Compare) -> ast.Compare:
+    """`"X" == v` is read as `v == "X"` (same sub-expression nodes, so their annotations are found)"""
+    if isinstance(test.ops[0], (ast.Eq, ast.NotEq)) and isinstance(test.left, ast.Constant) and not isinstance(test.comparators[0], ast.Constant):
+        return ast.copy_location(ast.Compare(left=test.comparators[0], ops=test.ops, comparators=[test.left]), test)
+    return test
+
+
 def _as_load(node):
     import copy as _c
 
